@@ -30,7 +30,7 @@ META = {
         'uniformly; the oracle accepts exactly the literal formula for all tones of a statement or exactly this deviation '
         'for all of them (reported under %s). Second deviation found: with Tandy / PCjr SOUND ON a tone below 110 Hz is '
         'played at 110 Hz (reported under %s). Not pinned by the statement, hence not generated or not compared: default '
-        'T/L/O/M (every string sets them first), volume, C-/B#/E#/F- spellings, note length 0, P without length, dots after '
+        'T/L/O/M (every string sets them first), volume, note lengths given by variable (pcbasic takes literals only there), C-/B#/E#/F- spellings, note length 0, P without length, dots after '
         'L, N0, semicolons other than those closing =var; and Xvar;, what was already emitted before a malformed command '
         'is reached, adjacent silences are compared merged (gap + pause), zero-length synchronisation markers of the '
         'multi-voice syntaxes are ignored. Trusted: harness recording queue and virtual clock, IEEE double pow for the '
@@ -56,10 +56,10 @@ FLAT_OK = 'DEGAB'
 
 def _num_form(rng, allow_ptr):
     r = rng.random()
-    if r < 0.84:
+    if r < 0.80:
         return 'lit'
-    if r < 0.95 or not allow_ptr:
-        return ['var', None]
+    if r < 0.92 or not allow_ptr:
+        return ['var', None]       # second element: variable type hint (None = random over % ! # and array elements)
     return ['ptr', None]
 
 
@@ -149,18 +149,23 @@ class Renderer(object):
         self.assign = []      # (name bytes, value: int or bytes)
         self.nrefs = 0
         self.nptr = 0
+        self.narrptr = 0      # VARPTR$ references to array elements
 
-    def _name(self, kind):
+    def _name(self, kind, hint=None):
+        """A fresh variable: integer %, single !, double #, element of an integer / double / string array."""
         self.nvar += 1
-        if kind == 'str':
-            return b'S%d$' % self.nvar
         r = self.rng.random()
-        if r < 0.6:
-            return b'Q%d%%' % self.nvar
-        if r < 0.85 or self.narr[0] >= 10:
-            return b'R%d!' % self.nvar
-        self.narr[0] += 1
-        return b'AR%%(%d)' % self.narr[0]
+        if kind == 'str':
+            typ = hint or ('a$' if r < 0.15 else '$')
+        else:
+            typ = hint or ('%' if r < 0.35 else '!' if r < 0.55 else '#' if r < 0.80 else 'a%' if r < 0.90 else 'a#')
+        if typ.startswith('a'):
+            if self.narr[0] >= 10:
+                typ = typ[1:]
+            else:
+                self.narr[0] += 1
+                return {'a%': b'AR%%(%d)', 'a#': b'AD#(%d)', 'a$': b'SA$(%d)'}[typ] % self.narr[0]
+        return {'%': b'Q%d%%', '!': b'R%d!', '#': b'D%d#', '$': b'S%d$'}[typ] % self.nvar
 
     def _case(self, s):
         return s.lower() if self.rng.random() < 0.25 else s
@@ -169,13 +174,14 @@ class Renderer(object):
         if form == 'lit' or form is None:
             pieces.append(('lit', self._case(letter) + b'%d' % value))
             return
-        name = self._name('num')
+        name = self._name('num', form[1])
         self.assign.append((name, value))
         self.nrefs += 1
         if form[0] == 'var':
             pieces.append(('lit', self._case(letter) + b'=' + name + b';'))
         else:
             self.nptr += 1
+            self.narrptr += (b'(' in name)
             pieces.append(('lit', self._case(letter) + b'='))
             pieces.append(('ptr', name))
 
@@ -211,12 +217,13 @@ class Renderer(object):
                 self.assign.extend(sub.assign)
                 self.nrefs += sub.nrefs + 1
                 self.nvar = sub.nvar
-                name = self._name('str')
+                name = self._name('str', form[1])
                 self.assign.append((name, text))
                 if form[0] == 'var':
                     pieces.append(('lit', self._case(b'X') + name + b';'))
                 else:
                     self.nptr += 1
+                    self.narrptr += (b'(' in name)
                     pieces.append(('lit', self._case(b'X')))
                     pieces.append(('ptr', name))
         return pieces
@@ -281,7 +288,7 @@ class Rig(object):
         _, self.audio = h.record_queues(self.box.s, video=False)
         if self.sound_on and self.syntax == 'pcjr':
             self.box.ex(b'SOUND ON')
-        self.box.ex(b'DIM AR%(10)')
+        self.box.ex(b'DIM AR%(10),AD#(10),SA$(10)')
         self.audio.drain()
 
     def close(self):
@@ -297,7 +304,11 @@ class Rig(object):
             self.open()
             box = self.box
         for name, value in assigns:
-            if isinstance(value, bytes):
+            if isinstance(value, bytes) and b'(' in name:
+                out = box.ex(name + b'="' + value + b'"')        # string array element (the text holds no quote)
+                if out.strip():
+                    raise RuntimeError('assignment failed: %r' % out)
+            elif isinstance(value, bytes):
                 box.set(name.decode(), value)
             else:
                 out = box.ex(name + b'=%d' % value)
@@ -413,6 +424,9 @@ class Rig(object):
             code = -2
         if code:
             key = 'play:valid-string-rejected' if code > 0 else 'play:statement-did-not-finish'
+            if code > 0 and rnd.narrptr:
+                # an argument given as "="+VARPTR$(array element) (three arrays are dimensioned in the session)
+                key = 'play:varptr-array-element-reference-rejected'
             res.violation(key, '%s -> %r' % (stmt, out[-60:]), case)
             return False
         ok = True
@@ -446,6 +460,8 @@ class Rig(object):
             res.count('variable_references', rnd.nrefs)
         if rnd.nptr:
             res.count('varptr_references', rnd.nptr)
+        if rnd.narrptr:
+            res.count('varptr_array_element_references', rnd.narrptr)
         if len(tokens) > 1:
             res.count('multi_voice_statements')
         return ok
@@ -536,6 +552,16 @@ def directed_cases(part):
                                  (['O', 2], ['var', None]), (['N', 34, 0], ['var', None]), (['note', 'A', '', None, 0], None)]]
         yield 'x-ptr', [hdr() + [(['X', sub], ['ptr', None]), (['note', 'E', '', None, 0], None), (['T', 90], ['ptr', None]),
                                  (['O', 2], ['ptr', None]), (['N', 34, 0], ['ptr', None]), (['note', 'A', '', None, 0], None)]]
+        # every numeric argument kind x every variable type x (=name; | "="+VARPTR$(var)); X with scalar / array-element strings
+        for form in ('var', 'ptr'):
+            for typ in ('%', '!', '#', 'a%', 'a#'):
+                for tk in (['L', 8], ['T', 200], ['O', 5], ['N', 34, 1], ['V', 7]):
+                    tag = '%sref %s %s %s' % ('V:' if tk[0] == 'V' else '', tk[0], typ, form)
+                    yield tag, [hdr() + [(['note', 'C', '', None, 0], None), (list(tk), [form, typ]),
+                                         (['note', 'D', '', None, 1], None), (['note', 'E', '-', 16, 0], None)]]
+            for typ in ('$', 'a$'):
+                sub2 = [(['L', 16], ['var', '#']), (['note', 'G', '', None, 0], None), (['O', 1], ['var', 'a#']), (['note', 'F', '#', 2, 0], None)]
+                yield 'ref X %s %s' % (typ, form), [hdr() + [(['X', sub2], [form, typ]), (['note', 'B', '', None, 0], None)]]
         # middle A: the D-S3 reproducer (note number 34 = O2 A under the statement's numbering)
         yield 'd-s3', [hdr(O=2) + [(['note', 'A', '', None, 0], None), (['N', 34, 0], 'lit'), (['N', 1, 0], 'lit'), (['N', 84, 0], 'lit')]]
 
@@ -579,6 +605,8 @@ def _run_rig(spec, kind, r, ri, res):
         rng = random.Random('C42:directed:%s:%d' % (spec['table'], ri))     # rendering only (case, blanks); seed-independent
         first = (ri == 0)
         for tag, voices in directed_cases(spec['table']):
+            if tag.startswith('V:') and not r.allow_v:
+                continue
             r.check_valid(voices, rng, 'directed:' + tag, force_var=(tag == 'long-background'))
             res.count('directed_cases')
             if first:
